@@ -55,19 +55,19 @@ ADDENDA = {
  'C01': 'Round 5: ordered containers keyed by smart pointers; a queued timer is dequeued on every path of cancel(). Round 7: every copy out of a packet is bounded by what is left of the payload behind the read position.',
  'C02': 'Round 5: every jump of the clock is measured from a fresh reading of the clock (reaching-events analysis over definitions of the local and advances). Audit batch 3: with the stop flag set run() reaches neither the poll from its entry nor the clock advance from the poll.',
  'C03': 'Round 5: fire() is only called on a dequeued timer; a constructor that marks the timer pending queues it. Later: equal expiries are ordered by an arming sequence - add_timer() inserts inside the equal range in front of the first entry armed later; the sequence is written only by expires_at/expires_after from a growing counter before the timer is queued.',
- 'C05': 'Round 5: segments, retransmissions and ACKs are sent on the hops of their own direction (channel orientation); scatter reads re-assign the buffer offset whenever the buffer cursor is stepped. Round 7: the nothing-copied-yet test in front of an error report reads a count that only grows. Audit batch 3: the size of a user buffer is not converted to int before it is bounded.',
- 'C07': 'Round 5: acceptor::close(ec) empties the accept queue; registry entries are re-pointed only by their owner. Audit rounds: the listening predicate is decided by value for the limits listen() stores; an abandoned connect notifies the other end, the acceptor forgets it, a detached forwarder refuses a SYN; acceptor::open() starts not-listening on every path. Round 7: the two ends of a channel are told apart by their whole endpoints; the destructor gives up an outstanding connect before it resets the channel. Audit batch 3: the endpoint getters clear ec on success; every negative backlog becomes the default before listen() stores it; a connect that fails by packet re-dispatches the operations parked behind it.',
+ 'C05': 'Round 5: segments, retransmissions and ACKs are sent on the hops of their own direction (channel orientation); scatter reads re-assign the buffer offset whenever the buffer cursor is stepped. Round 7: the nothing-copied-yet test in front of an error report reads a count that only grows. Audit batch 3: the size of a user buffer is not converted to int before it is bounded. Round 9: a read that delivers nothing (would_block) does not replace the buffers of the read parked on the socket.',
+ 'C07': 'Round 5: acceptor::close(ec) empties the accept queue; registry entries are re-pointed only by their owner. Audit rounds: the listening predicate is decided by value for the limits listen() stores; an abandoned connect notifies the other end, the acceptor forgets it, a detached forwarder refuses a SYN; acceptor::open() starts not-listening on every path. Round 7: the two ends of a channel are told apart by their whole endpoints; the destructor gives up an outstanding connect before it resets the channel. Audit batch 3: the endpoint getters clear ec on success; every negative backlog becomes the default before listen() stores it; a connect that fails by packet re-dispatches the operations parked behind it. Round 9: a pending connect completed by the acceptor\'s reset drops its channel (no usable connection is left).',
  'C08': 'Round 5: the pacing cursor is pulled up to the clock before it is advanced; the NAT rewrite of the source is unconditional; the sender prepends its whole outgoing route. Audit rounds: every synchronous entry point with an error_code out-parameter assigns it on every path (recursive through callees, correlated bool helpers followed by value). Round 7: the receive queue\'s limit admits the largest datagram on an empty queue. Audit batch 3: the 65535 test and the receive copy see un-narrowed sizes.',
  'C09': 'Round 5: channel orientation (hops[i] leads to ep[i]) and order-preserving route composition. Audit rounds: the network part of each channel route is asked for the direction of the outgoing/incoming routes it sits between. Round 7: no backlog reading made before forward_packet() decides what happens after it. Audit batch 4: the serialisation time handed to the timer is rounded up, never truncated.',
  'C11': 'Round 5: sorted-range algorithms only on containers kept sorted; move constructors read no field of the source after resetting it; closing an acceptor empties its accept queue. Audit rounds: the move constructors clear both binding views of the source; the port-0 probe re-enters the bottom of the ephemeral range; only listen() stores a listening limit.',
- 'C12': 'Round 5: move re-points the registry under the transferred binding; the acceptor\'s borrowed out-pointers are rewritten whenever an accept slot is armed; the resolver touches no member after invoking a handler. Audit rounds: every completion bound to a socks_connection member holds shared_from_this(). Round 7: no smart pointer is dereferenced after std::move gave its contents away (library-wide).',
- 'C13': 'Round 5: the channel\'s two routes are composed from the right sockets\' routes, in order and in full.',
+ 'C12': 'Round 5: move re-points the registry under the transferred binding; the acceptor\'s borrowed out-pointers are rewritten whenever an accept slot is armed; the resolver touches no member after invoking a handler. Audit rounds: every completion bound to a socks_connection member holds shared_from_this(). Round 7: no smart pointer is dereferenced after std::move gave its contents away (library-wide). Round 9: acceptor::close(ec) resets every connection still queued, so their connectors complete (rule shared with C07).',
+ 'C13': 'Round 5: the channel\'s two routes are composed from the right sockets\' routes, in order and in full. Round 9: io_context files every configured route under the address the configuration was asked about, in the table of the same direction.',
  'C14': 'Round 5: the configured latency is added at clock resolution; on_lookup touches nothing of the resolver after invoking the user\'s handler. Audit rounds: IP literals are queued in completion-time order; a host-name lookup starts at max(now, last completion). Audit batch 4: whatever empties the lookup queue also cancels the resolver\'s timer.',
- 'C15': 'Round 5: no comparison uses a signed difference converted to unsigned without a dominating order guard. Round 7: find()\'s loop guard admits the last window; every cycle of normalize()\'s search loop advances the search origin.',
+ 'C15': 'Round 5: no comparison uses a signed difference converted to unsigned without a dominating order guard. Round 7: find()\'s loop guard admits the last window; every cycle of normalize()\'s search loop advances the search origin. Round 9: the normaliser removes a path element only where the search for the next \'/\' succeeded (the last segment is never a detour); the search-loop variant also covers loops without a condition.',
  'C16': 'Round 5: the keep-alive decision reads only per-request or construction-time state; header keys are lower-case as stored; re-arming the accept re-examines the accept queue. Audit rounds: 0 <= start <= end <= size at the generator call (reaching definitions over min/max/clamp shapes); abandoned connects and a vanished peer cannot wedge the accept loop. Round 7: the numeric conversions in the registered handlers throw types the handler\'s catch clauses accept.',
  'C17': 'Round 5: close_connection() closes every TCP member; closures handed to asynchronous operations own their payload; every non-error path of on_read_udp re-arms the receive. Audit rounds: no read of a computed length is issued for zero bytes; address family casts are guarded; the relay buffer holds a whole datagram; the association ends with its TCP connection. Round 7: a negotiation step entered directly with (error_code(), n) does not take its failure exit for those arguments. Audit batch 4: every TCP completion of a connection closes it on its error edge. Round 8: protocol octets read from plain-char buffers are masked or converted to unsigned char before they are combined into ports and addresses; whose datagram it is is decided after the client\'s port has been learned.',
  'C18': 'Round 5: at most one origin connection attempt per client connection (latch falsified synchronously by the initiation); header keys lower-case. Audit rounds: completions aborted by close_connection() are inert; no write to the origin socket while its connect is outstanding; a read into the remaining buffer needs room; a request naming another origin is never appended to the pipeline. Round 7: the full-buffer refusal is tested only after every complete request has been extracted. Audit batch 4: while an accept is outstanding no completion has any effect (stale completions of the previous client); an error writing to the origin ends the upload, not the relay of the answer.',
- 'C19': 'Round 5: every locally built segment has packet::from set before send_packet. Audit rounds: address casts in the record writers are guarded by a family test; only handshake-level resets bypass send_packet. Audit batch 3: log_pcap() finishes the running capture before the new one opens its file.',
+ 'C19': 'Round 5: every locally built segment has packet::from set before send_packet. Audit rounds: address casts in the record writers are guarded by a family test; only handshake-level resets bypass send_packet. Audit batch 3: log_pcap() finishes the running capture before the new one opens its file. Round 9: nothing but the virtual clock reading and constants enters the record timestamp.',
  'C20': 'Round 5: the accepted side looks the path MTU up for the connector\'s address (channel orientation). Round 7: the path MTU is looked up for the bound address (after the implicit bind). Audit batch 4: the don\'t-fragment flag is cleared by close() and in a moved-from socket; every IP_PMTUDISC value that means DF sets it. (set_option is interpreted for DONT / DO / PROBE; the flag it leaves is compared with the expected one.)',
  'C06': 'Audit rounds: a dropped segment\'s resend needs a trigger of its own (known finding); a peer that hangs up fails the parked writer. Round 7: every arriving segment is acknowledged before it is parked or queued; next_packet_sent() decides about the next departure from the queue as it is after the hand-over.',
  'C10': 'Audit rounds: a hop builds no packet of its own except the refusal a detached forwarder answers a SYN with. Audit batch 3: nothing of the queue is touched after forward_packet() without a liveness test.',
